@@ -642,6 +642,35 @@ def generate(expanded_path, templates, out_rs, out_meta, flags=(), extra_sources
                 nxt = 'fn size_hint (R7: performance hint, not under contract)'
             assumed_lines.append([no, (l.strip() + ' ' + nxt)[:200]])
     g.meta['assumption_scan'] = assumed_lines
+    # impl-item coverage: every impl/trait from which at least one fn is under contract is listed with all its fn items;
+    # a method that is not in the committed baseline (verus/impl_items.baseline.json) is new code inside an impl the
+    # checks claim to cover, with no contract on it => lost anchor (undecided), never silently ignored
+    items = {}
+    for f in g.meta['fns']:
+        parts = [x.strip() for x in f['anchor'].split('|')]
+        if len(parts) != 3 or parts[0].startswith('@') or parts[1] in ('-', ''):
+            continue
+        key = parts[0] + ' | ' + norm(parts[1])
+        if key in items:
+            continue
+        try:
+            c = src.find_container(parts[0], parts[1])
+        except LostAnchor:
+            continue
+        items[key] = sorted(set(ch.name for ch in c.children if ch.kind == 'fn'))
+    g.meta['impl_items'] = items
+    base_p = os.path.join(os.path.dirname(os.path.dirname(os.path.abspath(__file__))), 'verus', 'impl_items.baseline.json')
+    if os.environ.get('PSC_WRITE_IMPL_BASELINE'):
+        old = json.load(open(base_p)) if os.path.exists(base_p) else {}
+        for k, v in items.items():
+            old[k] = sorted(set(old.get(k, [])) | set(v))
+        with open(base_p, 'w') as f:
+            json.dump(old, f, indent=1, sort_keys=True)
+    elif os.path.exists(base_p):
+        base = json.load(open(base_p))
+        new_items = ['%s: %s' % (k, ', '.join(sorted(set(v) - set(base[k])))) for k, v in sorted(items.items()) if k in base and set(v) - set(base[k])]
+        if new_items:
+            raise LostAnchor('method(s) not present when the contracts were written, inside impls under contract: ' + '; '.join(new_items))
     with open(out_meta, 'w') as f:
         json.dump(g.meta, f, indent=1)
     return g.meta
